@@ -4,6 +4,7 @@ be told apart from any other declaration (nothing lost, nothing altered), and th
 application are exactly the declared ones (nothing undeclared).
 -/
 import SyslModel.Compile.Model
+import SyslModel.Mixin.Props
 
 namespace SyslModel.Compile
 
@@ -267,6 +268,33 @@ theorem appNode_keys (e : Env) (f : File) (a : App) :
   simp only [List.map_append, List.map_cons, List.map_nil, indexed_keys, List.length_map, ownTypes_keys, typeKeys,
     endpointKeys, List.map_map, Function.comp_def, key, List.append_assoc]
   split <;> simp
+
+/-! ## mixins: the generic theorems of `Mixin` at the instance the compile model uses -/
+
+theorem mixFind_keys (f : File) : ∀ a ms own, mixFind f a = some (ms, own) → a ∈ f.apps.map (·.parts) := by
+  intro a ms own h
+  unfold mixFind at h
+  cases hf : f.apps.find? (fun b => b.parts == a) with
+  | none => rw [hf] at h; cases h
+  | some b =>
+    have hb := List.mem_of_find?_eq_some hf
+    have hp : b.parts = a := by simpa using List.find?_some hf
+    exact List.mem_map.mpr ⟨b, hb, hp⟩
+
+/-- **mixins_spec** (C02): the (application, type) pairs an application holds after post-processing are
+    exactly those declared by the applications it reaches through mixin lists, itself included -/
+theorem mixins_spec (f : File) (a : List String) (ms : List (List String)) (own : List (List String × TypeDecl))
+    (ha : mixFind f a = some (ms, own)) (bt : List String × TypeDecl) :
+    bt ∈ Mixin.holds (mixFind f) f.apps.length a ↔
+      ∃ b, Mixin.Reach (mixFind f) a b ∧ ∃ mb ob, mixFind f b = some (mb, ob) ∧ bt ∈ ob :=
+  Mixin.holds_spec (mixFind f) (f.apps.map (·.parts)) (mixFind_keys f) f.apps.length (by simp) a ms own ha bt
+
+/-- **mixins_recompile_gains_nothing** (C09): a compiled model whose applications declare what they hold,
+    compiled again, leaves every application holding exactly the same pairs -/
+theorem mixins_recompile_gains_nothing (f : File) (a : List String) (bt : List String × TypeDecl) :
+    bt ∈ Mixin.holds (Mixin.again (mixFind f) f.apps.length) f.apps.length a ↔
+      bt ∈ Mixin.holds (mixFind f) f.apps.length a :=
+  Mixin.recompile_gains_nothing (mixFind f) (f.apps.map (·.parts)) (mixFind_keys f) f.apps.length (by simp) a bt
 
 /-! ## non-vacuity -/
 
